@@ -8,6 +8,8 @@ import (
 	"math/rand"
 	"reflect"
 	"strings"
+	"sync"
+	"sync/atomic"
 	"unsafe"
 
 	"github.com/welllog/golib/listz"
@@ -19,6 +21,10 @@ import (
 // The private *rand.Rand of the list is replaced (reflect + unsafe) by one whose Source64 replays the
 // scripted words; the model receives the same words.  Tower heights (len(node.next)) and the `level`
 // field are read back through reflection by op 18.
+// Op 19 g R as the first operation ("independent lists", c02Rep): the rest of the sequence is executed R times in a row
+// on each of g+1 lists, every list by its own goroutine, all at once, and NOTHING of the lists is touched by the harness
+// (they keep the random source the library gave them): a list used by one goroutine is a sorted map whatever other lists
+// of the process are doing.
 
 // ---- scripted Source64
 type c02Script struct {
@@ -170,6 +176,7 @@ type c02Plain[K typez.Ordered] struct {
 	to   func(int64) K
 	back func(K) int64
 	src  *c02Script
+	own  bool // the list keeps the random source the library gave it (op 19)
 }
 type c02Cmp[K any] struct {
 	held iter.Seq2[K, int64]
@@ -178,6 +185,7 @@ type c02Cmp[K any] struct {
 	to   func(int64) K
 	back func(K) int64
 	src  *c02Script
+	own  bool
 	// optional: the representative of a key handed to the QUERYING calls (Get, GetNode, Remove, RangeWithStart/Range): equal
 	// to to(k) under the comparator but a different value.  Keys the list hands out must be the stored ones.
 	probe func(int64) K
@@ -191,6 +199,9 @@ func (p *c02Cmp[K]) q(k int64) K {
 }
 
 func (p *c02Plain[K]) set(mode int, k K, v int64) bool {
+	if p.own {
+		return c02SetMode(p.s, mode, k, v)
+	}
 	zero := c02IsZero(p.s)
 	if zero && c02HookOK {
 		// lazyInit creates a time-seeded generator inside this very call: the first tower (height 1 or 2)
@@ -260,7 +271,9 @@ func (p *c02Plain[K]) Do(code, a, b, c int64, out []int64) []int64 {
 	switch code {
 	case 0:
 		s.Init()
-		c02Inject(s, p.src)
+		if !p.own {
+			c02Inject(s, p.src)
+		}
 	case 1:
 		p.set(0, p.to(a), b)
 	case 2:
@@ -366,7 +379,9 @@ func (p *c02Cmp[K]) Do(code, a, b, c int64, out []int64) []int64 {
 	switch code {
 	case 0:
 		s.Init(p.cmp)
-		c02Inject(s, p.src)
+		if !p.own {
+			c02Inject(s, p.src)
+		}
 	case 1:
 		s.Set(p.to(a), b)
 	case 2:
@@ -477,18 +492,105 @@ func c02Impl(in []int64) []int64 {
 	if !ok {
 		return []int64{BADCASE}
 	}
+	for i := 0; i+3 < len(ops); i += 4 {
+		if ops[i] < 0 || ops[i] > 19 || (ops[i] == 19 && i > 0) {
+			return []int64{BADCASE}
+		}
+	}
+	if len(ops) >= 4 && ops[0] == 19 {
+		return c02Rep(kind, ws, ops)
+	}
+	l := c02Make(kind, ws, ops, false)
+	var out []int64
+	for i := 0; i+3 < len(ops); i += 4 {
+		out = l.Do(ops[i], ops[i+1], ops[i+2], ops[i+3], out)
+	}
+	if kind == 0 && len(ops)%8 == 0 && !c02ValueTypesOK() {
+		out = append(out, -1000036) // see c02ValueTypesOK
+	}
+	return out
+}
+
+// c02Rep: op 19 g R followed by the round.  g+1 lists of the case's instantiation, each made and driven by a goroutine of its
+// own (the round R times in a row), all started together; the harness does not touch the lists (no scripted source, no
+// reflection).  Per list: results of rounds 1, 2, 3 ++ [how many of the rounds 4..R gave the results of round 3 -- a round
+// starts in the state its predecessor left, which is the same from round 3 on (Run/C02.v checks that)]; the case's output is that of the first list ++ [how many of the other lists gave exactly the same].  A panic
+// in any of the goroutines is a panic of the case.
+func c02Rep(kind int64, ws []uint64, ops []int64) []int64 {
+	g, R, body := ops[1], ops[2], ops[4:]
+	if g < 1 || g > 63 || R < 3 || R > 10000000 {
+		return []int64{BADCASE}
+	}
+	for i := 0; i+3 < len(body); i += 4 {
+		if body[i] == 18 {
+			return []int64{BADCASE}
+		}
+	}
+	n := int(g) + 1
+	outs := make([][]int64, n)
+	var stop atomic.Bool
+	var panicked atomic.Value
+	start := make(chan struct{})
+	var wg sync.WaitGroup
+	for j := 0; j < n; j++ {
+		wg.Add(1)
+		go func(j int) {
+			defer wg.Done()
+			defer func() {
+				if r := recover(); r != nil {
+					panicked.CompareAndSwap(nil, fmt.Sprint(r))
+					stop.Store(true)
+				}
+			}()
+			l := c02Make(kind, ws, ops, true)
+			<-start
+			var o12, o3, buf []int64
+			same := int64(0)
+			for r := int64(1); r <= R && !stop.Load(); r++ {
+				buf = buf[:0]
+				for i := 0; i+3 < len(body); i += 4 {
+					buf = l.Do(body[i], body[i+1], body[i+2], body[i+3], buf)
+				}
+				switch {
+				case r <= 2:
+					o12 = append(o12, buf...)
+				case r == 3:
+					o3 = append([]int64{}, buf...)
+				case eqTok(buf, o3):
+					same++
+				}
+			}
+			outs[j] = append(append(o12, o3...), same)
+		}(j)
+	}
+	close(start)
+	wg.Wait()
+	if p := panicked.Load(); p != nil {
+		panic("a list driven by one goroutine alone panicked while other lists were in use: " + p.(string))
+	}
+	eq := int64(0)
+	for j := 1; j < n; j++ {
+		if eqTok(outs[j], outs[0]) {
+			eq++
+		}
+	}
+	return append(outs[0], eq)
+}
+
+// the list of a case (own: it keeps the random source the library gave it)
+func c02Make(kind int64, ws []uint64, ops []int64, own bool) c02List {
 	src := &c02Script{ws: ws}
 	ident := func(x int64) int64 { return x }
 	var l c02List
 	switch kind {
 	case 0:
-		l = &c02Plain[int64]{s: new(listz.SkipList[int64, int64]), to: ident, back: ident, src: src}
+		l = &c02Plain[int64]{s: new(listz.SkipList[int64, int64]), to: ident, back: ident, src: src, own: own}
 	case 3:
-		l = &c02Plain[string]{s: new(listz.SkipList[string, int64]), to: c02Str, back: c02StrBack, src: src}
+		l = &c02Plain[string]{s: new(listz.SkipList[string, int64]), to: c02Str, back: c02StrBack, src: src, own: own}
 	case 4:
 		// keys 2^31 apart, comparator `a - b` (a legal total order on these keys; the differences are multiples of 2^31):
 		// a comparator result narrowed to 32 bits flips its sign or becomes 0
-		l = &c02Cmp[int64]{s: new(listz.SkipListWithCmp[int64, int64]), to: func(x int64) int64 { return x << 31 }, back: func(k int64) int64 { return k >> 31 }, src: src,
+		l = &c02Cmp[int64]{s: new(listz.SkipListWithCmp[int64, int64]), to: func(x int64) int64 { return x << 31 }, back: func(k int64) int64 { return k >> 31 }, src: src, own: own,
 			cmp: func(a, b int64) int { return int(a - b) }}
 	case 5:
 		rev := func(a, b int64) int { return int(b - a) } // reversed; magnitude other than 1 on purpose
@@ -504,12 +606,12 @@ func c02Impl(in []int64) []int64 {
 				return 0
 			}
 		}
-		l = &c02Cmp[int64]{s: new(listz.SkipListWithCmp[int64, int64]), to: ident, back: ident, src: src, cmp: rev}
+		l = &c02Cmp[int64]{s: new(listz.SkipListWithCmp[int64, int64]), to: ident, back: ident, src: src, cmp: rev, own: own}
 	case 6:
 		// keys are stored as 2k and asked for as 2k+1; the comparator looks at k only (values that are equal under the
 		// comparator but distinguishable: case-insensitive strings, records ordered by an id).  An odd key coming out of the
 		// list is a probe handed back instead of the stored key: token -1000034.
-		l = &c02Cmp[int64]{s: new(listz.SkipListWithCmp[int64, int64]), src: src,
+		l = &c02Cmp[int64]{s: new(listz.SkipListWithCmp[int64, int64]), src: src, own: own,
 			to: func(k int64) int64 { return 2 * k }, probe: func(k int64) int64 { return 2*k + 1 },
 			back: func(x int64) int64 {
 				if x&1 != 0 {
@@ -525,17 +627,10 @@ func c02Impl(in []int64) []int64 {
 				return c02Sign(a - b)
 			}}
 	default:
-		l = &c02Cmp[string]{s: new(listz.SkipListWithCmp[string, int64]), to: c02Str, back: c02StrBack, src: src,
+		l = &c02Cmp[string]{s: new(listz.SkipListWithCmp[string, int64]), to: c02Str, back: c02StrBack, src: src, own: own,
 			cmp: strings.Compare}
 	}
-	var out []int64
-	for i := 0; i+3 < len(ops); i += 4 {
-		out = l.Do(ops[i], ops[i+1], ops[i+2], ops[i+3], out)
-	}
-	if kind == 0 && len(ops)%8 == 0 && !c02ValueTypesOK() {
-		out = append(out, -1000036) // see c02ValueTypesOK
-	}
-	return out
+	return l
 }
 
 // The value type of the map is arbitrary (V any): values that are == but distinguishable (+0 and -0), values that cannot
@@ -583,7 +678,7 @@ func c02ValueTypesOK() (ok bool) {
 }
 
 var c02Names = []string{"Init", "Set", "SetNx", "SetX", "Get", "GetNode", "NodeSetValue", "Len", "Head", "HeadNextWalk", "Remove", "Clear",
-	"Range", "All", "Keys", "Values", "RangeWithStart", "RangeWithRange", "Shape"}
+	"Range", "All", "Keys", "Values", "RangeWithStart", "RangeWithRange", "Shape", "IndependentLists"}
 var c02Kinds = map[int64]string{0: "SkipList[int]", 3: "SkipList[string]", 4: "SkipListWithCmp[int] ascending, keys scaled by 2^31, cmp = a-b", 5: "SkipListWithCmp[int] reversed (cmp = b-a, or MinInt/0/MaxInt when words+ops is odd)",
 	6: "SkipListWithCmp[int] composite(k%4,k), keys stored as 2k and queried as 2k+1 (equal under the comparator)", 7: "SkipListWithCmp[string]"}
 
@@ -603,7 +698,14 @@ func c02Describe(in []int64) string {
 			s += " ?"
 			continue
 		}
+		if n := len(ops) / 4; n > 90 && i/4 == 60 {
+			s += fmt.Sprintf(" ... (%d more operations, see the input) ...", n-70)
+			i = (n - 11) * 4
+			continue
+		}
 		switch c {
+		case 19:
+			s += fmt.Sprintf(" [%d independent lists of the library's own making (random source untouched), each driven by its own goroutine, all at once; on each of them %d times in a row:]", ops[i+1]+1, ops[i+2])
 		case 1, 2, 3, 6, 17:
 			s += fmt.Sprintf(" %s(%d,%d", c02Names[c], ops[i+1], ops[i+2])
 			if c == 17 {
@@ -770,6 +872,116 @@ func (b *c02B) observe() {
 	b.op(7, 0, 0, 0)
 	b.op(18, 0, 0, 0)
 	b.op(9, 0, 0, 0)
+}
+
+// a round for the independent-lists families: random insert / remove / read phases over the keys 0..nk-1.
+// dense: nearly every operation is an insertion of an unbound key or a removal of a bound one (the calls between two draws
+// from the random source are few and cheap)
+func c02Round(b *c02B, r *rand.Rand, nops int, nk int64, dense bool) {
+	if b.kind >= 4 {
+		b.op(0, 0, 0, 0)
+		b.inits = true
+	}
+	perm := func() []int64 {
+		ks := make([]int64, nk)
+		for i, j := range r.Perm(int(nk)) {
+			ks[i] = int64(j)
+		}
+		return ks[:1+r.Intn(int(nk))]
+	}
+	height := func() int {
+		h := 1
+		for h < 32 && r.Intn(2) == 0 {
+			h++
+		}
+		return h
+	}
+	some := func(bound bool) []int64 {
+		var ks []int64
+		for _, j := range r.Perm(int(nk)) {
+			if b.mem[int64(j)] == bound {
+				ks = append(ks, int64(j))
+			}
+		}
+		if len(ks) > 2 && r.Intn(3) == 0 {
+			ks = ks[:len(ks)/2+r.Intn(len(ks)/2)]
+		}
+		return ks
+	}
+	for len(b.ops)/4 < nops+1 {
+		x := r.Intn(20)
+		if dense {
+			switch {
+			case x < 9:
+				for _, k := range some(false) {
+					b.set(int64(1+r.Intn(4)/3), k, r.Int63n(1000), height(), r)
+				}
+				continue
+			case x < 18:
+				for _, k := range some(true) {
+					b.op(10, k, 0, 0)
+				}
+				continue
+			case x < 19:
+				x = 15 // a few reads
+			}
+		}
+		switch {
+		case x < 8:
+			for _, k := range perm() {
+				b.set(int64(1+r.Intn(4)/3), k, r.Int63n(1000), height(), r) // Set, one in four SetNx
+			}
+		case x < 14:
+			ks := perm()
+			if r.Intn(2) == 0 { // everything that is bound, in random order: the next insert phase draws for every key
+				ks = ks[:0]
+				for _, j := range r.Perm(int(nk)) {
+					if b.mem[int64(j)] {
+						ks = append(ks, int64(j))
+					}
+				}
+			}
+			for _, k := range ks {
+				b.op(10, k, 0, 0)
+			}
+		case x < 19:
+			for j := 2 + r.Intn(6); j > 0; j-- {
+				k := r.Int63n(nk + 1)
+				switch r.Intn(12) {
+				case 0:
+					b.op(4, k, 0, 0)
+				case 1:
+					b.op(5, k, 0, 0)
+				case 2:
+					b.op(6, k, r.Int63n(1000), 0)
+				case 3:
+					b.op(7, 0, 0, 0)
+				case 4:
+					b.op(8, 0, 0, 0)
+				case 5:
+					b.set(3, k, r.Int63n(1000), 1, r)
+				case 6:
+					b.op(12, int64(r.Intn(4)), 0, 0)
+				case 7:
+					b.op(13, int64(r.Intn(4)), int64(r.Intn(2)), 0)
+				case 8:
+					b.op(16, k, int64(r.Intn(4)), 0)
+				case 9:
+					b.op(17, k, k+int64(r.Intn(5))-1, int64(r.Intn(3)))
+				case 10:
+					b.op(14+int64(r.Intn(2)), 0, 0, 0)
+				default:
+					b.op(9, 0, 0, 0)
+				}
+			}
+		default:
+			if b.kind < 4 && r.Intn(3) == 0 {
+				b.op(0, 0, 0, 0)
+			} else if r.Intn(2) == 0 {
+				b.op(11, 0, 0, 0)
+			}
+		}
+	}
 }
 
 func c02Gen(c *Ctx) {
@@ -1100,6 +1312,45 @@ func c02Gen(c *Ctx) {
 		t.C.Count("style", []string{"geometric", "geometric", "all-tall", "tall-then-flat", "extremes", "grow-then-shrink"}[style])
 		t.Try("random-"+c02Kinds[kind], b.in(), b.ins >= 2 && len(b.codes) >= 3)
 	})
+
+	// ---- 4. independent lists (op 19): g+1 lists that the harness does not touch, each driven by a goroutine of its own, all
+	// at once, the round R times in a row on each.  What one list answers must not depend on other lists being in use
+	// (a generator, an update buffer, a node pool shared by the lists of the package).  The rounds are random
+	// insert / remove / read phases over a small key set, so the lists stay small and the number of insertions (the only
+	// calls that reach the random source) grows with R.
+	c.Each(c.N(3000, 40000), func(i int, t *T) {
+		r := t.R
+		kind := kinds[i%len(kinds)]
+		b := c02New(kind)
+		g, R := int64(1+r.Intn(3)), int64(3+r.Intn(10))
+		b.op(19, g, R, 0)
+		c02Round(b, r, 4+r.Intn(36), int64(2+r.Intn(7)), i%5 == 4)
+		t.C.Count("independent-lists", fmt.Sprintf("short rounds, %d lists", g+1))
+		t.Try("independent-lists-short-"+c02Kinds[kind], b.in(), b.ins >= 2 && len(b.codes) >= 4)
+	})
+	// long rounds (more than 750 operations: such a case is longer than 3000 integers, which keeps it out of the framework's
+	// concurrent phase and out of the shrinker -- its failure is a race between lists and does not shrink reliably),
+	// 2.5*10^5..4*10^5 insertions on every list (most of these rounds are dense: little else than insertions and removals); these cases run in a batch of their own, so that all the lists in use at
+	// the same time are independent ones
+	c.Each(c.N(12, 36), func(i int, t *T) {
+		r := t.R
+		kind := kinds[i%len(kinds)]
+		b := c02New(kind)
+		g, target := int64(15), 400000
+		if i >= len(kinds) {
+			g, target = []int64{1, 2, 3, 7}[r.Intn(4)], 250000
+		}
+		b.op(19, g, 3, 0)
+		c02Round(b, r, 750+r.Intn(150), int64(6+r.Intn(19)), i%len(kinds) != i/len(kinds)%len(kinds))
+		R := int64(target / (b.ins + 1))
+		if R < 3 {
+			R = 3
+		}
+		b.ops[2] = R
+		t.C.Count("independent-lists", fmt.Sprintf("long rounds, %d lists", g+1))
+		t.Try("independent-lists-long-"+c02Kinds[kind], b.in(), int(R)*b.ins >= 100000)
+	})
+	c.Note("independent lists: 2..16 lists made by the library and left alone by the harness (random source not replaced), each driven by its own goroutine at the same time, a round of operations repeated on each (short rounds 2-12 times; long rounds of 750-900 operations until every list has seen 2.5*10^5..4*10^5 insertions); every list must answer as the sorted map")
 }
 
 func init() {
@@ -1108,5 +1359,6 @@ func init() {
 		Rule: "zero-value matrix (every method alone, after Clear, in pairs) for SkipList[int|string] and SkipListWithCmp under ascending/reversed/composite/string comparators; " +
 			"exhaustive: every sequence up to the tier's length over Set(k, raw height h) k in {1,2,3} h in {1,2,3,32}, Remove k, Clear, SetX, SetNx, RangeWithStart, Init; " +
 			"random: 8-70 operations, raw random words scripted (geometric, all-tall, tall-then-flat, extremes, grow-then-shrink), start keys next to removed keys, callbacks stopping after 0-4 calls. " +
+			"independent lists: the rest of the sequence repeated R times on each of g+1 lists that keep the library's own random source, one goroutine per list, all at once (short rounds of 4-40 operations, long rounds of 750-900 operations with 2.5*10^5..4*10^5 insertions per list; non-trivial = 2 insertions per round and 4 operations, long: 10^5 insertions per list). " +
 			"A SkipListWithCmp is never written before Init (it has no comparator). distinct = distinct case; non-trivial = at least 2 insertions and 3 different operations (exhaustive: length >= 2, an insertion, 4 different operations)"})
 }
